@@ -171,6 +171,9 @@ func (i RateLimitedIssuer) Evaluate(encodedRequest []byte) ([]byte, []byte, erro
 	}
 
 	scalarLen := (i.curve.Params().Params().BitSize + 7) / 8
+	if len(req.Signature) != 2*scalarLen {
+		return nil, nil, fmt.Errorf("invalid request signature")
+	}
 	r := new(big.Int).SetBytes(req.Signature[:scalarLen])
 	s := new(big.Int).SetBytes(req.Signature[scalarLen:])
 
